@@ -1,3 +1,429 @@
-import LpModel.C03
+/-
+  C03 — adaptive Simpson integration: property theorems (DESIGN.md §6, C03).
+  All statements are about the executable model `Lp.C03.integrate` / `Lp.C03.adaptive`
+  (exact rationals); the tie to src/Integration.cpp is the correspondence run.
+-/
+import LpProofs.C03.Lemmas
 namespace Lp.C03
+
+/-! ## Exactness on quintics -/
+
+def quintic (c0 c1 c2 c3 c4 c5 : Rat) (x : Rat) : Rat :=
+  c0 + c1 * x + c2 * x ^ 2 + c3 * x ^ 3 + c4 * x ^ 4 + c5 * x ^ 5
+
+/-- the antiderivative of `quintic` -/
+def quinticPrim (c0 c1 c2 c3 c4 c5 : Rat) (x : Rat) : Rat :=
+  c0 * x + c1 * x ^ 2 / 2 + c2 * x ^ 3 / 3 + c3 * x ^ 4 / 4 + c4 * x ^ 5 / 5 + c5 * x ^ 6 / 6
+
+/-- the invariant of the recursion: the values handed down are the integrand at the ends and the
+    midpoint of the panel, and `S` is Simpson's rule on the panel -/
+def Panel.reuseOK (f : Rat → Rat) (p : Panel) : Prop :=
+  p.fa = f p.a ∧ p.fb = f p.b ∧ p.fc = f ((p.a + p.b) / 2) ∧ p.S = ((p.b - p.a) / 6) * (p.fa + 4 * p.fc + p.fb) ∧
+  p.S2 = ((p.b - p.a) / 12) * (p.fa + 4 * f ((p.a + (p.a + p.b) / 2) / 2) + p.fc)
+       + ((p.b - p.a) / 12) * (p.fc + 4 * f ((p.b + (p.a + p.b) / 2) / 2) + p.fb)
+
+theorem adaptive_quintic_exact (c0 c1 c2 c3 c4 c5 : Rat) (n : Nat) :
+    ∀ a b eps S fa fb fc : Rat,
+      fa = quintic c0 c1 c2 c3 c4 c5 a → fb = quintic c0 c1 c2 c3 c4 c5 b →
+      fc = quintic c0 c1 c2 c3 c4 c5 ((a + b) / 2) → S = ((b - a) / 6) * (fa + 4 * fc + fb) →
+      (adaptive (quintic c0 c1 c2 c3 c4 c5) a b eps S fa fb fc n).val
+        = quinticPrim c0 c1 c2 c3 c4 c5 b - quinticPrim c0 c1 c2 c3 c4 c5 a := by
+  have boole : ∀ a b S fa fb fc : Rat,
+      fa = quintic c0 c1 c2 c3 c4 c5 a → fb = quintic c0 c1 c2 c3 c4 c5 b →
+      fc = quintic c0 c1 c2 c3 c4 c5 ((a + b) / 2) → S = ((b - a) / 6) * (fa + 4 * fc + fb) →
+      s2 (quintic c0 c1 c2 c3 c4 c5) a b fa fb fc + (s2 (quintic c0 c1 c2 c3 c4 c5) a b fa fb fc - S) / 15
+        = quinticPrim c0 c1 c2 c3 c4 c5 b - quinticPrim c0 c1 c2 c3 c4 c5 a := by
+    intro a b S fa fb fc hfa hfb hfc hS
+    subst hfa hfb hfc hS
+    simp only [s2, sLeft, sRight, quintic, quinticPrim]
+    ring
+  induction n with
+  | zero =>
+    intro a b eps S fa fb fc hfa hfb hfc hS
+    rw [adaptive_zero]
+    exact boole a b S fa fb fc hfa hfb hfc hS
+  | succ n ih =>
+    intro a b eps S fa fb fc hfa hfb hfc hS
+    by_cases h : Lp.rabs (s2 (quintic c0 c1 c2 c3 c4 c5) a b fa fb fc - S) ≤ 15 * eps
+    · rw [adaptive_succ_accept _ _ _ _ _ _ _ _ _ h]
+      exact boole a b S fa fb fc hfa hfb hfc hS
+    · rw [adaptive_succ_reject _ _ _ _ _ _ _ _ _ h]
+      simp only []
+      have hL := ih a (mid a b) (eps / 2) (sLeft (quintic c0 c1 c2 c3 c4 c5) a b fa fc) fa fc
+        (quintic c0 c1 c2 c3 c4 c5 (dL a b)) hfa (by rw [hfc]; rfl) rfl
+        (by subst hfa hfc; simp only [sLeft, mid, dL]; ring)
+      have hR := ih (mid a b) b (eps / 2) (sRight (quintic c0 c1 c2 c3 c4 c5) a b fb fc) fc fb
+        (quintic c0 c1 c2 c3 c4 c5 (eR a b)) (by rw [hfc]; rfl) hfb
+        (by simp only [eR, mid]; congr 1; ring)
+        (by subst hfb hfc; simp only [sRight, mid, eR]; ring)
+      rw [hL, hR]
+      ring
+
+/-- **simpson_quintic_exact**: for every polynomial of degree ≤ 5 with rational coefficients,
+    every `a b eps depth` (either orientation, any sign of `eps`, any depth incl. negative):
+    `Integrate` returns `F b − F a` exactly. -/
+theorem simpson_quintic_exact (c0 c1 c2 c3 c4 c5 a b eps : Rat) (depth : Int) :
+    (integrate (quintic c0 c1 c2 c3 c4 c5) a b eps depth).val
+      = quinticPrim c0 c1 c2 c3 c4 c5 b - quinticPrim c0 c1 c2 c3 c4 c5 a := by
+  unfold integrate
+  by_cases hab : a = b
+  · subst hab; simp
+  · rw [if_neg hab]
+    simp only []
+    rw [adaptive_quintic_exact c0 c1 c2 c3 c4 c5 depth.toNat _ _ _ _ _ _ _ rfl rfl rfl rfl]
+    by_cases hgt : a > b
+    · simp only [if_pos hgt]; ring
+    · simp only [if_neg hgt]; ring
+
+/-! ## Limits: swap, equal limits, sign of epsilon -/
+
+/-- **integrate_eq_limits**: equal limits give zero and the integrand is not evaluated. -/
+theorem integrate_eq_limits (f : Rat → Rat) (a eps : Rat) (depth : Int) :
+    (integrate f a a eps depth).val = 0 ∧ (integrate f a a eps depth).evals = [] ∧
+      (integrate f a a eps depth).warn = false := by
+  unfold integrate; simp
+
+/-- **integrate_swap**: swapping the limits negates the value exactly; the integrand is evaluated
+    at the same abscissae in the same order and the warning is the same. -/
+theorem integrate_swap (f : Rat → Rat) (a b eps : Rat) (depth : Int) :
+    (integrate f b a eps depth).val = -(integrate f a b eps depth).val ∧
+      (integrate f b a eps depth).evals = (integrate f a b eps depth).evals ∧
+      (integrate f b a eps depth).warn = (integrate f a b eps depth).warn ∧
+      (integrate f b a eps depth).panels = (integrate f a b eps depth).panels := by
+  unfold integrate
+  by_cases hab : a = b
+  · subst hab; simp
+  · have hba : ¬ b = a := fun h => hab h.symm
+    rw [if_neg hab, if_neg hba]
+    rcases lt_or_gt_of_ne hab with hlt | hgt
+    · have h1 : b > a := hlt
+      have h2 : ¬ a > b := not_lt.mpr (le_of_lt hlt)
+      simp only [if_pos h1, if_neg h2]
+      and_intros <;> first | trivial | ring
+    · have h1 : a > b := hgt
+      have h2 : ¬ b > a := not_lt.mpr (le_of_lt hgt)
+      simp only [if_pos h1, if_neg h2]
+      and_intros <;> first | trivial | ring
+
+/-- **integrate_eps_sign**: `epsilon` and `-epsilon` give the same run (value, abscissae, warning). -/
+theorem integrate_eps_sign (f : Rat → Rat) (a b eps : Rat) (depth : Int) :
+    integrate f a b (-eps) depth = integrate f a b eps depth := by
+  unfold integrate
+  rw [rabs_neg]
+
+/-! ## Where and how often the integrand is evaluated -/
+
+theorem adaptive_evals_inside (f : Rat → Rat) (n : Nat) :
+    ∀ a b eps S fa fb fc : Rat, a ≤ b →
+      ∀ x ∈ (adaptive f a b eps S fa fb fc n).evals, a ≤ x ∧ x ≤ b := by
+  have hd : ∀ a b : Rat, a ≤ b → a ≤ dL a b ∧ dL a b ≤ mid a b := by
+    intro a b h; unfold dL mid; constructor <;> linarith
+  have he : ∀ a b : Rat, a ≤ b → mid a b ≤ eR a b ∧ eR a b ≤ b := by
+    intro a b h; unfold eR mid; constructor <;> linarith
+  have hm : ∀ a b : Rat, a ≤ b → a ≤ mid a b ∧ mid a b ≤ b := by
+    intro a b h; unfold mid; constructor <;> linarith
+  have leafcase : ∀ a b : Rat, a ≤ b → ∀ x ∈ [dL a b, eR a b], a ≤ x ∧ x ≤ b := by
+    intro a b hab x hx
+    simp only [List.mem_cons, List.not_mem_nil, or_false] at hx
+    rcases hx with rfl | rfl
+    · exact ⟨(hd a b hab).1, le_trans (hd a b hab).2 (hm a b hab).2⟩
+    · exact ⟨le_trans (hm a b hab).1 (he a b hab).1, (he a b hab).2⟩
+  induction n with
+  | zero =>
+    intro a b eps S fa fb fc hab x hx
+    rw [adaptive_zero] at hx
+    exact leafcase a b hab x hx
+  | succ n ih =>
+    intro a b eps S fa fb fc hab x hx
+    by_cases h : Lp.rabs (s2 f a b fa fb fc - S) ≤ 15 * eps
+    · rw [adaptive_succ_accept _ _ _ _ _ _ _ _ _ h] at hx
+      exact leafcase a b hab x hx
+    · rw [adaptive_succ_reject _ _ _ _ _ _ _ _ _ h] at hx
+      simp only [List.mem_cons, List.mem_append] at hx
+      rcases hx with rfl | rfl | hx | hx
+      · exact leafcase a b hab _ (by simp)
+      · exact leafcase a b hab _ (by simp)
+      · have := ih _ _ _ _ _ _ _ (hm a b hab).1 x hx
+        exact ⟨this.1, le_trans this.2 (hm a b hab).2⟩
+      · have := ih _ _ _ _ _ _ _ (hm a b hab).2 x hx
+        exact ⟨le_trans (hm a b hab).1 this.1, this.2⟩
+
+/-- **simpson_evals_inside**: every abscissa at which the integrand is evaluated lies in the
+    closed interval `[min a b, max a b]`. -/
+theorem simpson_evals_inside (f : Rat → Rat) (a b eps : Rat) (depth : Int) :
+    ∀ x ∈ (integrate f a b eps depth).evals, min a b ≤ x ∧ x ≤ max a b := by
+  intro x hx
+  unfold integrate at hx
+  by_cases hab : a = b
+  · rw [if_pos hab] at hx; simp at hx
+  · rw [if_neg hab] at hx
+    simp only [List.mem_cons] at hx
+    have key : ∀ lo hi : Rat, lo ≤ hi → min a b = lo → max a b = hi →
+        (x = lo ∨ x = hi ∨ x = (lo + hi) / 2 ∨
+          x ∈ (adaptive f lo hi (Lp.rabs eps) ((hi - lo) / 6 * (f lo + 4 * f ((lo + hi) / 2) + f hi))
+                (f lo) (f hi) (f ((lo + hi) / 2)) depth.toNat).evals) →
+        min a b ≤ x ∧ x ≤ max a b := by
+      intro lo hi hle hmin hmax hx
+      rw [hmin, hmax]
+      rcases hx with rfl | rfl | rfl | hx
+      · exact ⟨le_refl _, hle⟩
+      · exact ⟨hle, le_refl _⟩
+      · constructor <;> linarith
+      · exact adaptive_evals_inside f _ lo hi _ _ _ _ _ hle x hx
+    by_cases hgt : a > b
+    · simp only [if_pos hgt] at hx
+      exact key b a (le_of_lt hgt) (min_eq_right (le_of_lt hgt)) (max_eq_left (le_of_lt hgt)) hx
+    · simp only [if_neg hgt] at hx
+      exact key a b (not_lt.mp hgt) (min_eq_left (not_lt.mp hgt)) (max_eq_right (not_lt.mp hgt)) hx
+
+theorem adaptive_eval_count (f : Rat → Rat) (n : Nat) :
+    ∀ a b eps S fa fb fc : Rat, (adaptive f a b eps S fa fb fc n).evals.length + 2 ≤ 2 ^ (n + 2) := by
+  induction n with
+  | zero => intro a b eps S fa fb fc; rw [adaptive_zero]; simp
+  | succ n ih =>
+    intro a b eps S fa fb fc
+    have hp : 2 ^ (n + 1 + 2) = 2 * 2 ^ (n + 2) := by rw [pow_succ]; ring
+    have h4 : 4 ≤ 2 ^ (n + 2) := by
+      have : 2 ^ (n + 2) = 4 * 2 ^ n := by rw [pow_add]; ring
+      have := Nat.one_le_two_pow (n := n); omega
+    by_cases h : Lp.rabs (s2 f a b fa fb fc - S) ≤ 15 * eps
+    · rw [adaptive_succ_accept _ _ _ _ _ _ _ _ _ h]; simp only [List.length_cons, List.length_nil]; omega
+    · rw [adaptive_succ_reject _ _ _ _ _ _ _ _ _ h]
+      simp only [List.length_cons, List.length_append]
+      have h1 := ih a (mid a b) (eps / 2) (sLeft f a b fa fc) fa fc (f (dL a b))
+      have h2 := ih (mid a b) b (eps / 2) (sRight f a b fb fc) fc fb (f (eR a b))
+      omega
+
+/-- **simpson_eval_count**: at most `2^(depth+2)+1` evaluations (`depth` negative counts as 0). -/
+theorem simpson_eval_count (f : Rat → Rat) (a b eps : Rat) (depth : Int) :
+    (integrate f a b eps depth).evals.length ≤ 2 ^ (depth.toNat + 2) + 1 := by
+  unfold integrate
+  by_cases hab : a = b
+  · rw [if_pos hab]; simp
+  · rw [if_neg hab]
+    simp only [List.length_cons]
+    have := adaptive_eval_count f depth.toNat (if a > b then b else a) (if a > b then a else b) (Lp.rabs eps)
+      (((if a > b then a else b) - (if a > b then b else a)) / 6 *
+        (f (if a > b then b else a) + 4 * f (((if a > b then b else a) + (if a > b then a else b)) / 2) + f (if a > b then a else b)))
+      (f (if a > b then b else a)) (f (if a > b then a else b)) (f (((if a > b then b else a) + (if a > b then a else b)) / 2))
+    omega
+
+/-! ## The values handed down the recursion -/
+
+theorem adaptive_reuse (f : Rat → Rat) (n : Nat) :
+    ∀ a b eps S fa fb fc : Rat,
+      fa = f a → fb = f b → fc = f ((a + b) / 2) → S = ((b - a) / 6) * (fa + 4 * fc + fb) →
+      ∀ p ∈ (adaptive f a b eps S fa fb fc n).panels, p.reuseOK f := by
+  have own : ∀ (a b eps S fa fb fc : Rat) (k : Nat) (l : Bool),
+      fa = f a → fb = f b → fc = f ((a + b) / 2) → S = ((b - a) / 6) * (fa + 4 * fc + fb) →
+      (mkPanel f a b eps S fa fb fc k l).reuseOK f := by
+    intro a b eps S fa fb fc k l hfa hfb hfc hS
+    exact ⟨hfa, hfb, hfc, hS, rfl⟩
+  induction n with
+  | zero =>
+    intro a b eps S fa fb fc hfa hfb hfc hS p hp
+    rw [adaptive_zero] at hp
+    simp only [List.mem_cons, List.not_mem_nil, or_false] at hp
+    subst hp; exact own _ _ _ _ _ _ _ _ _ hfa hfb hfc hS
+  | succ n ih =>
+    intro a b eps S fa fb fc hfa hfb hfc hS p hp
+    by_cases h : Lp.rabs (s2 f a b fa fb fc - S) ≤ 15 * eps
+    · rw [adaptive_succ_accept _ _ _ _ _ _ _ _ _ h] at hp
+      simp only [List.mem_cons, List.not_mem_nil, or_false] at hp
+      subst hp; exact own _ _ _ _ _ _ _ _ _ hfa hfb hfc hS
+    · rw [adaptive_succ_reject _ _ _ _ _ _ _ _ _ h] at hp
+      simp only [List.mem_cons, List.mem_append] at hp
+      rcases hp with rfl | hp | hp
+      · exact own _ _ _ _ _ _ _ _ _ hfa hfb hfc hS
+      · exact ih a (mid a b) (eps / 2) _ fa fc _ hfa (by rw [hfc]; rfl) rfl
+          (by subst hfa hfc; simp only [sLeft, mid, dL]; ring) p hp
+      · exact ih (mid a b) b (eps / 2) _ fc fb _ (by rw [hfc]; rfl) hfb
+          (by simp only [eR, mid]; congr 1; ring)
+          (by subst hfb hfc; simp only [sRight, mid, eR]; ring) p hp
+
+/-- **simpson_reuse**: in every invocation of the recursive function the values handed down are
+    the integrand at the ends and at the midpoint of that invocation's panel, and the coarse
+    estimate handed down is Simpson's rule on that panel. -/
+theorem simpson_reuse (f : Rat → Rat) (a b eps : Rat) (depth : Int) :
+    ∀ p ∈ (integrate f a b eps depth).panels, p.reuseOK f := by
+  intro p hp
+  unfold integrate at hp
+  by_cases hab : a = b
+  · rw [if_pos hab] at hp; simp at hp
+  · rw [if_neg hab] at hp
+    exact adaptive_reuse f _ _ _ _ _ _ _ _ rfl rfl rfl rfl p hp
+
+/-! ## Error budget -/
+
+/-- sum of the tolerances of the invocations that returned a value themselves -/
+def leafEps (ps : List Panel) : Rat := ((ps.filter (·.leaf)).map (·.eps)).sum
+
+theorem leafEps_append (l1 l2 : List Panel) : leafEps (l1 ++ l2) = leafEps l1 + leafEps l2 := by
+  unfold leafEps; simp [List.filter_append, List.map_append, List.sum_append]
+
+/-- the tolerances handed down (`epsilon/2` per level) sum to exactly `epsilon` over the leaves -/
+theorem adaptive_leafEps (f : Rat → Rat) (n : Nat) :
+    ∀ a b eps S fa fb fc : Rat, leafEps (adaptive f a b eps S fa fb fc n).panels = eps := by
+  induction n with
+  | zero => intro a b eps S fa fb fc; rw [adaptive_zero]; simp [leafEps, mkPanel]
+  | succ n ih =>
+    intro a b eps S fa fb fc
+    by_cases h : Lp.rabs (s2 f a b fa fb fc - S) ≤ 15 * eps
+    · rw [adaptive_succ_accept _ _ _ _ _ _ _ _ _ h]; simp [leafEps, mkPanel]
+    · rw [adaptive_succ_reject _ _ _ _ _ _ _ _ _ h]
+      simp only []
+      have : leafEps (mkPanel f a b eps S fa fb fc (n + 1) false :: ((adaptive f a (mid a b) (eps / 2) (sLeft f a b fa fc) fa fc (f (dL a b)) n).panels ++
+          (adaptive f (mid a b) b (eps / 2) (sRight f a b fb fc) fc fb (f (eR a b)) n).panels))
+          = leafEps ((adaptive f a (mid a b) (eps / 2) (sLeft f a b fa fc) fa fc (f (dL a b)) n).panels ++
+          (adaptive f (mid a b) b (eps / 2) (sRight f a b fb fc) fc fb (f (eR a b)) n).panels) := by
+        unfold leafEps; simp [List.filter_cons, mkPanel]
+      rw [this, leafEps_append, ih, ih]; ring
+
+theorem adaptive_budget (f : Rat → Rat) (I : Rat → Rat → Rat)
+    (hI : ∀ x y z, I x y + I y z = I x z) (κ : Rat) (hκ : 0 ≤ κ) (n : Nat) :
+    ∀ a b eps S fa fb fc : Rat,
+      (adaptive f a b eps S fa fb fc n).warn = false →
+      (∀ p ∈ (adaptive f a b eps S fa fb fc n).panels, p.leaf = true →
+          |I p.a p.b - p.boole| ≤ κ * |p.S2 - p.S| / 15) →
+      |(adaptive f a b eps S fa fb fc n).val - I a b| ≤ κ * eps := by
+  have leafcase : ∀ (a b eps S fa fb fc : Rat) (k : Nat),
+      Lp.rabs (s2 f a b fa fb fc - S) ≤ 15 * eps →
+      |I a b - (mkPanel f a b eps S fa fb fc k true).boole| ≤ κ * |(mkPanel f a b eps S fa fb fc k true).S2 - (mkPanel f a b eps S fa fb fc k true).S| / 15 →
+      |s2 f a b fa fb fc + (s2 f a b fa fb fc - S) / 15 - I a b| ≤ κ * eps := by
+    intro a b eps S fa fb fc k hacc hl
+    rw [rabs_eq_abs] at hacc
+    simp only [Panel.boole, mkPanel] at hl
+    rw [abs_sub_comm]
+    have : κ * |s2 f a b fa fb fc - S| / 15 ≤ κ * eps := by
+      have := mul_le_mul_of_nonneg_left hacc hκ
+      linarith
+    linarith
+  induction n with
+  | zero =>
+    intro a b eps S fa fb fc hw hl
+    have e := adaptive_zero f a b eps S fa fb fc
+    have hl' := hl (mkPanel f a b eps S fa fb fc 0 true) (by rw [e]; exact List.mem_singleton.mpr rfl) rfl
+    rw [e] at hw ⊢
+    simp only [decide_eq_false_iff_not, not_lt] at hw
+    exact leafcase a b eps S fa fb fc 0 hw hl'
+  | succ n ih =>
+    intro a b eps S fa fb fc hw hl
+    by_cases h : Lp.rabs (s2 f a b fa fb fc - S) ≤ 15 * eps
+    · have e := adaptive_succ_accept f a b eps S fa fb fc n h
+      have hl' := hl (mkPanel f a b eps S fa fb fc (n + 1) true) (by rw [e]; exact List.mem_singleton.mpr rfl) rfl
+      rw [e]
+      exact leafcase a b eps S fa fb fc (n + 1) h hl'
+    · have e := adaptive_succ_reject f a b eps S fa fb fc n h
+      simp only [] at e
+      have hwL : (adaptive f a (mid a b) (eps / 2) (sLeft f a b fa fc) fa fc (f (dL a b)) n).warn = false ∧
+          (adaptive f (mid a b) b (eps / 2) (sRight f a b fb fc) fc fb (f (eR a b)) n).warn = false := by
+        rw [e] at hw; simpa [Bool.or_eq_false_iff] using hw
+      have hL := ih a (mid a b) (eps / 2) (sLeft f a b fa fc) fa fc (f (dL a b)) hwL.1
+        (fun p hp hlf => hl p (by rw [e]; exact List.mem_cons_of_mem _ (List.mem_append_left _ hp)) hlf)
+      have hR := ih (mid a b) b (eps / 2) (sRight f a b fb fc) fc fb (f (eR a b)) hwL.2
+        (fun p hp hlf => hl p (by rw [e]; exact List.mem_cons_of_mem _ (List.mem_append_right _ hp)) hlf)
+      rw [e]
+      simp only []
+      have hadd := hI a (mid a b) b
+      rw [abs_le] at hL hR ⊢
+      constructor <;> linarith [hL.1, hL.2, hR.1, hR.2]
+
+/-- **simpson_budget**: for any additive interval functional `I` (the exact integral) and any
+    integrand: if the run ended without the non-convergence warning (no panel was cut off by
+    `bottom <= 0`) and on every accepted panel the returned value is within `κ·|S2−S|/15` of `I`,
+    then the result is within `κ·|epsilon|` of `I a b` — the tolerances handed down sum to
+    `|epsilon|` over the leaves (`adaptive_leafEps`). -/
+theorem simpson_budget (f : Rat → Rat) (I : Rat → Rat → Rat)
+    (hI : ∀ x y z, I x y + I y z = I x z) (κ : Rat) (hκ : 0 ≤ κ)
+    (a b eps : Rat) (depth : Int)
+    (hw : (integrate f a b eps depth).warn = false)
+    (hleaf : ∀ p ∈ (integrate f a b eps depth).panels, p.leaf = true →
+        |I p.a p.b - p.boole| ≤ κ * |p.S2 - p.S| / 15) :
+    |(integrate f a b eps depth).val - I a b| ≤ κ * |eps| := by
+  have hI0 : ∀ x, I x x = 0 := by intro x; have := hI x x x; linarith
+  have hIneg : ∀ x y, I y x = -I x y := by intro x y; have := hI x y x; rw [hI0] at this; linarith
+  unfold integrate at hw hleaf ⊢
+  by_cases hab : a = b
+  · subst hab; simp [hI0]; exact mul_nonneg hκ (abs_nonneg _)
+  · rw [if_neg hab] at hw hleaf ⊢
+    simp only [] at hw hleaf ⊢
+    have hb := adaptive_budget f I hI κ hκ _ _ _ _ _ _ _ _ hw hleaf
+    rw [rabs_eq_abs] at hb
+    rw [rabs_eq_abs]
+    by_cases hgt : a > b
+    · simp only [if_pos hgt] at hb ⊢
+      rw [hIneg b a]
+      rw [abs_le] at hb ⊢
+      constructor <;> linarith [hb.1, hb.2]
+    · simp only [if_neg hgt] at hb ⊢
+      rw [one_mul]; exact hb
+
+/-- per-panel algebra behind `κ = 4`: with the classical error representation of Simpson's rule
+    on the panel (`I−S = −k·m1`, `I−S2 = −k·m2/16`) and `m1, m2 ∈ [m, 4m]`, `m > 0`. -/
+theorem boole_error_le_four (Iab S S2 k m m1 m2 : Rat)
+    (h1 : Iab - S = -k * m1) (h2 : Iab - S2 = -k * m2 / 16)
+    (hm : 0 < m) (hm1 : m ≤ m1) (_hm1' : m1 ≤ 4 * m) (hm2 : m ≤ m2) (hm2' : m2 ≤ 4 * m) :
+    |Iab - (S2 + (S2 - S) / 15)| ≤ 4 * |S2 - S| / 15 := by
+  have e1 : Iab - (S2 + (S2 - S) / 15) = k * ((m1 - m2) / 15) := by
+    have : S2 - S = (Iab - S) - (Iab - S2) := by ring
+    have : Iab - (S2 + (S2 - S) / 15) = (Iab - S2) - ((Iab - S) - (Iab - S2)) / 15 := by ring
+    rw [this, h1, h2]; ring
+  have e2 : S2 - S = k * (-(m1 - m2 / 16)) := by
+    have : S2 - S = (Iab - S) - (Iab - S2) := by ring
+    rw [this, h1, h2]; ring
+  rw [e1, e2, abs_mul, abs_mul, abs_neg]
+  have hpos : 0 ≤ m1 - m2 / 16 := by linarith
+  rw [abs_of_nonneg hpos]
+  have hd : |(m1 - m2) / 15| ≤ 4 * (m1 - m2 / 16) / 15 := by
+    rw [abs_le]; constructor <;> linarith
+  have := mul_le_mul_of_nonneg_left hd (abs_nonneg k)
+  calc |k| * |(m1 - m2) / 15| ≤ |k| * (4 * (m1 - m2 / 16) / 15) := this
+    _ = 4 * (|k| * (m1 - m2 / 16)) / 15 := by ring
+
+/-- **simpson_regular_4eps** (conditional): named hypothesis `hrep` = the classical error
+    representation of Simpson's rule on every accepted panel, with the fourth-derivative values
+    `m1, m2` of one sign and within a factor four of each other (what "f'''' keeps one sign and varies
+    by at most a factor four over the interval" yields; the Peano-kernel theorem itself is not
+    formalised).  Then a run without the warning is within `4·|epsilon|` of the integral. -/
+theorem simpson_regular_4eps (f : Rat → Rat) (I : Rat → Rat → Rat)
+    (hI : ∀ x y z, I x y + I y z = I x z) (a b eps : Rat) (depth : Int)
+    (hw : (integrate f a b eps depth).warn = false)
+    (hrep : ∀ p ∈ (integrate f a b eps depth).panels, p.leaf = true →
+        ∃ k m m1 m2 : Rat, I p.a p.b - p.S = -k * m1 ∧ I p.a p.b - p.S2 = -k * m2 / 16 ∧
+          0 < m ∧ m ≤ m1 ∧ m1 ≤ 4 * m ∧ m ≤ m2 ∧ m2 ≤ 4 * m) :
+    |(integrate f a b eps depth).val - I a b| ≤ 4 * |eps| := by
+  apply simpson_budget f I hI 4 (by norm_num) a b eps depth hw
+  intro p hp hl
+  obtain ⟨k, m, m1, m2, h1, h2, hm, a1, a2, a3, a4⟩ := hrep p hp hl
+  exact boole_error_le_four _ _ _ k m m1 m2 h1 h2 hm a1 a2 a3 a4
+
+/-! ## Non-vacuity: concrete instances meeting the hypotheses -/
+
+/-- the hypotheses of `simpson_regular_4eps` are met by `x⁴` (constant fourth derivative 24:
+    `k = h⁵/2880`, `m = m1 = m2 = 24`) on every interval, for every `eps`, `depth` -/
+example (a b eps : Rat) (depth : Int)
+    (hw : (integrate (fun x => x ^ 4) a b eps depth).warn = false) :
+    |(integrate (fun x => x ^ 4) a b eps depth).val - (b ^ 5 - a ^ 5) / 5| ≤ 4 * |eps| := by
+  apply simpson_regular_4eps (fun x => x ^ 4) (fun x y => (y ^ 5 - x ^ 5) / 5) (by intro x y z; ring) a b eps depth hw
+  intro p hp _
+  obtain ⟨hfa, hfb, hfc, hS, hS2⟩ := simpson_reuse _ a b eps depth p hp
+  refine ⟨(p.b - p.a) ^ 5 / 2880, 24, 24, 24, ?_, ?_, by norm_num, by norm_num, by norm_num, by norm_num, by norm_num⟩
+  · rw [hS, hfa, hfb, hfc]; ring
+  · rw [hS2, hfa, hfb, hfc]; ring
+
+/-- … and a run without the warning exists (x⁴ on [0,1], eps = 1, depth 5: accepted at once) -/
+example : (integrate (fun x => x ^ 4) 0 1 1 5).warn = false := by
+  unfold integrate
+  rw [if_neg (by norm_num)]
+  simp only []
+  have h5 : (5 : Int).toNat = 4 + 1 := rfl
+  rw [h5, adaptive_succ_accept]
+  rw [rabs_eq_abs, abs_le]
+  norm_num [s2, sLeft, sRight, Lp.rabs]
+
+/-- `boole_error_le_four` with a genuine factor-four variation -/
+example : |(1 : Rat) - ((33/32 : Rat) + ((33/32 : Rat) - 2) / 15)| ≤ 4 * |(33/32 : Rat) - 2| / 15 :=
+  boole_error_le_four 1 2 (33/32) 1 (1/4) 1 (1/2) (by norm_num) (by norm_num) (by norm_num) (by norm_num)
+    (by norm_num) (by norm_num) (by norm_num)
+
 end Lp.C03
